@@ -289,6 +289,31 @@ fn build(g: &Grammar, thorough: bool) -> Vec<Case14> {
             }
         }
     }
+    // long lists (sorting algorithms change their strategy with the length): n elements of one kind in several arrangements
+    // (rotated, reversed, multiplicative permutation, adjacent pairs swapped, two rotated blocks, already sorted)
+    for kind in ["MEASUREMENT", "COMPU_METHOD", "TYPEDEF_AXIS", "GROUP", "USER_RIGHTS"] {
+        for n in if thorough { vec![8usize, 20, 21, 22, 25, 33, 64, 129] } else { vec![20usize, 21, 25, 64] } {
+            let perms: Vec<(&str, Vec<usize>)> = vec![
+                ("rotated", (0..n).map(|i| (i + 1) % n).collect()),
+                ("rotated-back", (0..n).map(|i| (i + n - 1) % n).collect()),
+                ("reversed", (0..n).rev().collect()),
+                ("times-7", (0..n).map(|i| (i * 7 + 3) % n).collect::<Vec<_>>()),
+                ("pairs-swapped", (0..n).map(|i| if i % 2 == 0 { (i + 1).min(n - 1) } else { i - 1 }).collect()),
+                ("two-blocks", (0..n).map(|i| if i < n / 2 { (i + 3) % (n / 2) } else { n / 2 + (i - n / 2 + 5) % (n - n / 2) }).collect()),
+                ("sorted", (0..n).collect()),
+            ];
+            for (pn, perm) in perms {
+                // a permutation? (times-7 is one only when 7 does not divide n; pairs-swapped repeats the last index for odd n)
+                let mut seen = vec![false; n];
+                let ok = perm.iter().all(|i| !std::mem::replace(&mut seen[*i], true));
+                if !ok {
+                    continue;
+                }
+                let elems: Vec<ESpec> = perm.iter().map(|i| elem_for(kind, &format!("n{i:03}"), *i)).collect();
+                out.push(Case14 { label: format!("{n} x {kind}, {pn}"), class: format!("long-list:{pn}"), text: file_text(g, "m", &elems) });
+            }
+        }
+    }
     // the rich documents of the corpus and HEADER / version elements
     for d in crate::corpus::rich_docs(g) {
         out.push(Case14 { label: d.label.clone(), class: "rich".into(), text: d.doc.text() });
